@@ -2,13 +2,13 @@
  * ends the process with exit code 77 and vlib.run_cases attributes it to the case line that was running).
  *
  * case lines (after the index):
- *   G <path> <ch> <ri> <qi> <pl> <ns>      VBR grid: channel count ch x rates (ri = index into RATES, -1 = all 44) x qualities
+ *   G <path> <ch> <ri> <qi> <pl> <ns>      VBR grid: channel count ch x rates (ri = index into RATES, -1 = all 45) x qualities
  *                                          (qi = index into QUALS, -1 = all 16).  path 0 = vorbis_encode_init_vbr (one step),
  *                                          1 = vorbis_encode_setup_vbr + vorbis_encode_setup_init (three step).
  *                                          pl = pipeline after a successful set-up: 0 none, 1 analysis_init + headerout + headerin,
  *                                          2 = 1 + encode of ns noise samples per channel.
  *   M <path> <ch> <mi> <ti> <pl> <ns>      managed grid: channels ch x rate MRATES[mi] (-1 = all 8) x bitrate triples
- *                                          (ti = index 0..215 into BITR^3 as max*36+nominal*6+min, -1 = all 216).
+ *                                          (ti = index 0..342 into BITR^3 as max*49+nominal*7+min, -1 = all 343).
  *                                          path 0 = vorbis_encode_init, 1 = vorbis_encode_setup_managed + vorbis_encode_setup_init.
  *   C <base> <a> <b> <c> <enc> <nfix> <op>...   ctl histories on base configuration BASES[base]:
  *                                          a requests before setup_*, b between setup_* and setup_init, c after setup_init;
@@ -28,7 +28,7 @@
 static const long RATES[]={-1,0,1,2,100,4000,7999,8000,8001,8999,9000,9001,14999,15000,15001,18999,19000,19001,25999,26000,26001,
   39999,40000,40001,49999,50000,50001,96000,192000,199999,200000,200001,2147483647L,
   /* extras: the common rates and the 5.1 template's own upper bound (70000) */
-  11025,22050,32000,44100,48000,64000,69999,70000,70001,88200,176400};
+  11025,16000,22050,32000,44100,48000,64000,69999,70000,70001,88200,176400};
 #define NRATES ((int)(sizeof(RATES)/sizeof(RATES[0])))
 static float QUALS[16];
 #define NQUALS 16
@@ -36,7 +36,8 @@ static void init_quals(void){
   float q[16]={-1e30f,-1.f,-.2f,-.1000001f,-.1f,-.05f,0.f,.0499f,.5f,.999f,1.0f,1.0001f,2.f,0,0,0};
   memcpy(QUALS,q,sizeof(q)); QUALS[13]=INFINITY; QUALS[14]=-INFINITY; QUALS[15]=NAN;
 }
-static const long BITR[6]={-1,0,1,8000,64000,2147483647L};
+static const long BITR[7]={-1,0,1,8000,64000,256000,2147483647L};
+#define NTRI 343
 static const long MRATES[8]={-1,1,8000,16000,32000,44100,96000,2147483647L};
 
 /* ctl request alphabet */
@@ -162,6 +163,11 @@ static void sb_add(sbuf *b,const char *fmt,...){
   if(b->n+k+1>b->cap){ b->cap=(b->n+k+1)*2+256; b->s=(char*)__real_realloc(b->s,b->cap); }
   memcpy(b->s+b->n,tmp,k+1); b->n+=k;
 }
+static void sb_raw(sbuf *b,const char *str){
+  size_t k=strlen(str);
+  if(b->n+k+1>b->cap){ b->cap=(b->n+k+1)*2+256; b->s=(char*)__real_realloc(b->s,b->cap); }
+  memcpy(b->s+b->n,str,k+1); b->n+=k;
+}
 /* counted string multiset (small; linear search is fine) */
 typedef struct { char **k; long *v; int n,cap; } cset;
 static void cs_add(cset *c,const char *key,long v){
@@ -175,7 +181,12 @@ static void cs_emit(cset *c,sbuf *o,const char *tag,const char *sep){
 static void cs_free(cset *c){ int i; for(i=0;i<c->n;i++)__real_free(c->k[i]); __real_free(c->k); __real_free(c->v); memset(c,0,sizeof(*c)); }
 
 static volatile long g_cur=-1;
-static void on_alarm(int s){ char b[64]; int n=snprintf(b,sizeof(b),"%ld TIMEOUT\n",g_cur); if(write(1,b,n)<0){} _exit(3); }
+static long g_ord=-1; static char g_desc[256]; static long g_skip[16]; static int g_nskip;
+static void on_alarm(int s){ char b[400]; int n=snprintf(b,sizeof(b),"%ld TIMEOUT ord=%ld desc=%s\n",g_cur,g_ord,g_desc); if(write(1,b,n)<0){} _exit(3); }
+/* called by the sanitizer runtime right before it ends the process: names the tuple that was running */
+void __sanitizer_set_death_callback(void (*cb)(void));
+static void on_death(void){ char b[400]; int n=snprintf(b,sizeof(b),"\nC15-DEATH idx=%ld ord=%ld desc=%s\n",g_cur,g_ord,g_desc); if(write(2,b,n)<0){} }
+static int skipped(long ord){ int i; for(i=0;i<g_nskip;i++)if(g_skip[i]==ord)return 1; return 0; }
 
 /* ------------------------------------------------------- template labelling */
 /* leading members of vorbisenc.c's private ve_setup_data_template (mappings, rate_mapping, quality_mapping, coupling_restriction,
@@ -218,6 +229,13 @@ static void pipeline(vorbis_info *vi,long ch,long rate,int level,long ns,char *b
     /* coverage limit, not an oracle: a managed set-up whose hard minimum pads every packet to more than 64 KiB is not encoded
        (libogg's oggpack_write grows its buffer 256 bytes at a time: megabyte packets cost minutes under ASan) */
     codec_setup_info *ci=(codec_setup_info*)vi->codec_setup;
+    private_state *ps=(private_state*)vd.backend_state;
+    /* monitor: the bitrate manager's own invariant 0 <= fill <= reservoir_bits must hold right after initialisation.  A set-up that
+       was accepted with a fill outside it (observed: LONG_MIN from a NaN bias) makes vorbis_bitrate_addblock pad or truncate by
+       ~2^60 bytes: the encode does not complete.  Reported as a violation by name instead of waiting for the watchdog. */
+    if(ps->bms.managed&&(ps->bms.minmax_reservoir<0||ps->bms.minmax_reservoir>ci->bi.reservoir_bits)){
+      snprintf(bad,badn,"bitrate_reservoir_fill_%s_at_init",ps->bms.minmax_reservoir<0?"negative":"above_reservoir_bits"); goto done;
+    }
     if(ci->bi.reservoir_bits>0&&ci->bi.min_rate>0&&(double)ci->bi.min_rate*(ci->blocksizes[1]>>1)/(double)rate/8.>65536.){ level=1; es->bigpad=1; }
   }
   if(level>=2){
@@ -264,7 +282,9 @@ static void one_setup(acc *A,int managed,int path,long ch,long rate,float q,long
   if(managed)snprintf(desc,sizeof(desc),"managed:p%d:ch=%ld:rate=%ld:max=%ld:nom=%ld:min=%ld",path,ch,rate,mx,nom,mn);
   else snprintf(desc,sizeof(desc),"vbr:p%d:ch=%ld:rate=%ld:q=%s",path,ch,rate,qname(q,qb));
   fn1=managed?"setup_managed":"setup_vbr"; fn=managed?"init":"init_vbr";
+  g_ord=A->n; snprintf(g_desc,sizeof(g_desc),"%s",desc);
   A->n++;
+  if(skipped(g_ord)){ cs_add(&A->cls,"SKIPPED",1); return; }
   wa_on=1; base=wa_live_bytes;
   vorbis_info_init(&vi);
   strcpy(tl,"-");
@@ -350,7 +370,9 @@ static int do_ctl(vorbis_info *vi,const ctlop *op){
 static void one_history(acc *A,int base,int a,int b,int c,const int *ops,int enc,cset *states){
   const basecfg *B=&BASES[base]; vorbis_info vi; int L=a+b+c,i,r1,r2,rc; long lbase; char desc[200],cls[300],kind[160],hex[40],pb[120]; observ o0,o1; int frozen=0;
   { int k=snprintf(desc,sizeof(desc),"ctl:base=%d:split=%d-%d-%d:ops=",base,a,b,c); for(i=0;i<L;i++)k+=snprintf(desc+k,sizeof(desc)-k,"%s%d",i?".":"",ops[i]); }
+  g_ord=A->n; snprintf(g_desc,sizeof(g_desc),"%s",desc);
   A->n++;
+  if(skipped(g_ord)){ cs_add(&A->cls,"SKIPPED",1); return; }
   wa_on=1; lbase=wa_live_bytes;
   vorbis_info_init(&vi);
   { int k=0; cls[0]=0;
@@ -407,7 +429,7 @@ static void print_tables(void){
   int i; char qb[32];
   printf("{\"rates\":["); for(i=0;i<NRATES;i++)printf("%s%ld",i?",":"",RATES[i]);
   printf("],\"quals\":["); for(i=0;i<NQUALS;i++)printf("%s\"%s\"",i?",":"",qname(QUALS[i],qb));
-  printf("],\"bitr\":["); for(i=0;i<6;i++)printf("%s%ld",i?",":"",BITR[i]);
+  printf("],\"bitr\":["); for(i=0;i<7;i++)printf("%s%ld",i?",":"",BITR[i]);
   printf("],\"mrates\":["); for(i=0;i<8;i++)printf("%s%ld",i?",":"",MRATES[i]);
   printf("],\"ops\":["); for(i=0;i<NOPS;i++)printf("%s[%d,\"%s\",%d]",i?",":"",OPS[i].number,OPS[i].name,is_set_request(OPS[i].number)&&OPS[i].ak!=AK_VINULL);
   printf("],\"bases\":["); for(i=0;i<NBASES;i++)printf("%s\"%s\"",i?",":"",BASES[i].name);
@@ -420,14 +442,17 @@ int main(int argc,char **argv){
   for(i=1;i<argc;i++){ if(!strcmp(argv[i],"--cases"))cases=argv[++i]; else if(!strcmp(argv[i],"--timeout"))timeout=atoi(argv[++i]); else if(!strcmp(argv[i],"--tables")){ print_tables(); return 0; } }
   if(!cases)return 2;
   cf=fopen(cases,"r"); if(!cf)return 2;
-  signal(SIGVTALRM,on_alarm);
+  signal(SIGPROF,on_alarm);
+  __sanitizer_set_death_callback(on_death);
   while(getline(&line,&lcap,cf)>0){
-    char *sv,*tok; long idx; char mode; acc A; sbuf out; struct itimerval it; long v[16]; int nv=0; cset states;
+    char *sv,*tok; long idx; char mode; acc A; sbuf out; struct itimerval it; long v[40]; int nv=0; cset states;
     memset(&A,0,sizeof(A)); memset(&out,0,sizeof(out)); memset(&states,0,sizeof(states));
     tok=strtok_r(line," \n",&sv); if(!tok)continue; idx=atol(tok); g_cur=idx;
     tok=strtok_r(NULL," \n",&sv); if(!tok){ printf("%ld BADCASE\n",idx); fflush(stdout); continue; } mode=tok[0];
-    while((tok=strtok_r(NULL," \n",&sv))&&nv<16)v[nv++]=atol(tok);
-    memset(&it,0,sizeof(it)); it.it_value.tv_sec=timeout; setitimer(ITIMER_VIRTUAL,&it,NULL);
+    while((tok=strtok_r(NULL," \n",&sv))&&nv<40)v[nv++]=atol(tok);
+    memset(&it,0,sizeof(it)); it.it_value.tv_sec=timeout; setitimer(ITIMER_PROF,&it,NULL);
+    g_nskip=0; g_ord=-1; g_desc[0]=0;
+    { int fixed=(mode=='C'&&nv>=6)?6+(int)v[5]:6; int k; for(k=fixed;k<nv&&g_nskip<16;k++)g_skip[g_nskip++]=v[k]; }
     if(mode=='G'&&nv>=6){
       int path=v[0],ri,qi; long ch=v[1];
       for(ri=0;ri<NRATES;ri++){ if(v[2]>=0&&v[2]!=ri)continue;
@@ -436,11 +461,11 @@ int main(int argc,char **argv){
     }else if(mode=='M'&&nv>=6){
       int path=v[0],mi,ti; long ch=v[1];
       for(mi=0;mi<8;mi++){ if(v[2]>=0&&v[2]!=mi)continue;
-        for(ti=0;ti<216;ti++){ if(v[3]>=0&&v[3]!=ti)continue;
-          one_setup(&A,1,path,ch,MRATES[mi],0,BITR[ti/36],BITR[(ti/6)%6],BITR[ti%6],v[4],v[5]); } }
+        for(ti=0;ti<NTRI;ti++){ if(v[3]>=0&&v[3]!=ti)continue;
+          one_setup(&A,1,path,ch,MRATES[mi],0,BITR[ti/49],BITR[(ti/7)%7],BITR[ti%7],v[4],v[5]); } }
     }else if(mode=='C'&&nv>=6){
       int base=v[0],a=v[1],b=v[2],c=v[3],enc=v[4],nfix=v[5],L=a+b+c,ops[8],k,okc=1;
-      if(base<0||base>=NBASES||L>6||nfix>L||nv<6+nfix)okc=0;
+      if(base<0||base>=NBASES||L>6||nfix>L||nfix<0||nv<6+nfix)okc=0;
       for(k=0;okc&&k<nfix;k++){ ops[k]=v[6+k]; if(ops[k]<0||ops[k]>=NOPS)okc=0; }
       if(!okc){ printf("%ld BADCASE\n",idx); fflush(stdout); continue; }
       for(k=nfix;k<L;k++)ops[k]=0;
@@ -450,14 +475,14 @@ int main(int argc,char **argv){
         if(k<nfix)break;
       }
     }else{ printf("%ld BADCASE\n",idx); fflush(stdout); continue; }
-    memset(&it,0,sizeof(it)); setitimer(ITIMER_VIRTUAL,&it,NULL);
+    memset(&it,0,sizeof(it)); setitimer(ITIMER_PROF,&it,NULL);
     sb_add(&out,"ok n=%ld",A.n);
     cs_emit(&A.cls,&out,"cls",",");
     cs_emit(&A.succ,&out,"succ",",");
     cs_emit(&A.enc,&out,"enc",",");
     cs_emit(&states,&out,"st",",");
     cs_emit(&A.leak,&out,"leak",",");
-    sb_add(&out," bad=%s",A.bad.s?A.bad.s:"");
+    sb_raw(&out," bad="); if(A.bad.s)sb_raw(&out,A.bad.s);
     if(wa_overflow)sb_add(&out," WAOVERFLOW");
     printf("%ld %s\n",idx,out.s); fflush(stdout);
     cs_free(&A.cls); cs_free(&A.succ); cs_free(&A.leak); cs_free(&A.enc); cs_free(&states); __real_free(A.bad.s); __real_free(out.s);
